@@ -43,7 +43,8 @@ Section R56.
   Definition em_of (d : crypt_dict) : bool := d_em d || (d_v d <? 4)%Z.
 
   (* what the code makes of an unwrapped key *)
-  Definition finish56 (m : method) (d : crypt_dict) (k : bytes) : res decoder := Ok (decoder_new k 32 m (em_of d)).
+  Definition finish56 (m : method) (d : crypt_dict) (k : bytes) : res decoder :=
+    if negb (lenN k =? 32) then Err E_OTHER else Ok (decoder_new k 32 m (em_of d)).
 
   Definition result56 (m : method) (d : crypt_dict) (r : option bytes) : res decoder :=
     match r with Some k => finish56 m d k | None => Err E_INVALID_PASSWORD end.
@@ -144,7 +145,7 @@ Section R56.
       rewrite layout_vsalt, layout_ksalt, layout_hash by assumption.
       rewrite Hhv, bytes_eqb_refl, Hhk. unfold alg8_UE. rewrite aes_inv by (rewrite Lfk; reflexivity). reflexivity. }
     rewrite (from_password_56_refines fuel R m d upw p _ oe _ None Hp LU LO HUE HOE Lue Loe Hu) by discriminate.
-    unfold finish56. eexists. split; [reflexivity|].
+    unfold finish56. rewrite Lfk. cbn [N.eqb Pos.eqb negb]. eexists. split; [reflexivity|].
     cbn [decoder_new k_size k_key k_method k_enc_obj k_meta_obj k_em].
     repeat split; try reflexivity. apply take_all. lia.
   Qed.
@@ -172,7 +173,7 @@ Section R56.
       rewrite layout_vsalt, layout_ksalt, layout_hash by assumption.
       rewrite Hho, bytes_eqb_refl, Hhk. unfold alg9_OE. rewrite aes_inv by (rewrite Lfk; reflexivity). reflexivity. }
     rewrite (from_password_56_refines fuel R m d opw p ue _ _ _ Hp LU LO HUE HOE Lue Loe Hu (fun _ => Ho)).
-    unfold result56, finish56. eexists. split; [reflexivity|].
+    unfold result56, finish56. rewrite Lfk. cbn [N.eqb Pos.eqb negb]. eexists. split; [reflexivity|].
     cbn [decoder_new k_size k_key k_method k_enc_obj k_meta_obj k_em].
     repeat split; try reflexivity. apply take_all. lia.
   Qed.
@@ -194,21 +195,31 @@ Section R56.
     - rewrite (from_password_56_refines fuel R m d pw p ue oe _ _ Hp LU LO HUE HOE Lue Loe Hu (fun _ => Ho)). reflexivity.
   Qed.
 
-  (** ... and only then: a decoder is returned iff Algorithm 11 or Algorithm 12 accepts the prepared password *)
+  (** ... and only then: a decoder is returned iff Algorithm 11 or Algorithm 12 accepts the prepared password (and the
+      unwrapped key has the 32 bytes of a file key) *)
   Theorem accepted_iff_56 : forall fuel d id0 pw p R m ue oe ru ro,
     std_56_dict d R m -> PREP pw = Some p -> lenN (d_u d) = 48 -> lenN (d_o d) = 48 ->
     d_ue d = Some ue -> d_oe d = Some oe -> lenN ue mod 16 = 0 -> lenN oe mod 16 = 0 ->
     alg2a_user SHA256 SHA384 SHA512 AESE AESD R fuel (pw56 p) (d_u d) ue = Some ru ->
     alg2a_owner SHA256 SHA384 SHA512 AESE AESD R fuel (pw56 p) (d_o d) (d_u d) oe = Some ro ->
-    ((exists dc, FP fuel d id0 pw = Ok dc) <-> (ru <> None \/ ro <> None)).
+    ((exists dc, FP fuel d id0 pw = Ok dc) <->
+     (exists k, lenN k = 32 /\ (ru = Some k \/ (ru = None /\ ro = Some k)))).
   Proof.
     intros fuel d id0 pw p R m ue oe ru ro Hd Hp LU LO HUE HOE Lue Loe Hu Ho.
     rewrite (from_password_56_entry fuel d id0 pw R m Hd).
     rewrite (from_password_56_refines fuel R m d pw p ue oe _ _ Hp LU LO HUE HOE Lue Loe Hu (fun _ => Ho)).
+    assert (Hfin : forall k, (exists dc, finish56 m d k = Ok dc) <-> lenN k = 32).
+    { intros k. unfold finish56. destruct (lenN k =? 32) eqn:E; cbn [negb].
+      - apply N.eqb_eq in E. split; [intros _; exact E|intros _; eexists; reflexivity].
+      - apply N.eqb_neq in E. split; [intros [dc H]; discriminate|intros H; contradiction]. }
     destruct ru as [k|].
-    - split; [intros _; left; discriminate|intros _; eexists; reflexivity].
+    - rewrite Hfin. split.
+      + intros H. exists k. split; [exact H|left; reflexivity].
+      + intros (k' & Hk & [H|[H _]]); [inversion H; subst k'; exact Hk|discriminate].
     - destruct ro as [k|]; cbn [result56].
-      + split; [intros _; right; discriminate|intros _; eexists; reflexivity].
-      + split; [intros [dc H]; discriminate|intros [H|H]; contradiction].
+      + rewrite Hfin. split.
+        * intros H. exists k. split; [exact H|right; split; reflexivity].
+        * intros (k' & Hk & [H|[_ H]]); [discriminate|inversion H; subst k'; exact Hk].
+      + split; [intros [dc H]; discriminate|intros (k' & _ & [H|[_ H]]); discriminate].
   Qed.
 End R56.
